@@ -48,6 +48,55 @@ def run(F, R, tier):
             "Names/Namespaces::reorder, Index impls, get_namespace; get_key x4, first_name, add_child, map_with_key_from_result_iter")
 
 
+def _zip_fill(b, table_id):
+    """(assign node, try_for_each/for_each call) when the body fills the table with
+    `table.iter_mut().zip(<namespaces param>).try_for_each(|(slot, name)| { *slot = self.get_namespace(name)?; .. })` (either zip order)."""
+    pids = H.param_ids(b)
+    for n in H.walk(b["body"]):
+        if n.get("k") != "mcall" or n["name"] not in ("try_for_each", "for_each") or len(n["args"]) != 1:
+            continue
+        cl = H.peel(n["args"][0])
+        z = H.peel(n["recv"])
+        if cl.get("k") != "closure" or z.get("k") != "mcall" or z["name"] != "zip" or len(z["args"]) != 1 or len(cl["params"]) != 1:
+            continue
+        sides = [H.peel(z["recv"]), H.peel(z["args"][0])]
+
+        def kind(e):
+            while e.get("k") == "mcall" and e["name"] in ("iter", "into_iter", "iter_mut", "copied", "cloned"):
+                if e["name"] == "iter_mut":
+                    l = H.local_of(e["recv"])
+                    return "table" if l and l[0] == table_id else None
+                e = H.peel(e["recv"])
+            l = H.local_of(e)
+            if l and len(pids) >= 2 and l[0] in pids[1:]:
+                return "names"
+            return None
+        ks = [kind(x) for x in sides]
+        if sorted(k or "" for k in ks) != ["names", "table"]:
+            continue
+        p0 = cl["params"][0]
+        while p0.get("k") in ("pref", "pderef"):
+            p0 = p0["pat"]
+        if p0.get("k") != "ptuple" or len(p0["pats"]) != 2:
+            continue
+        ids = []
+        for x in p0["pats"]:
+            bb = H.pat_bindings(x)
+            ids.append(bb[0][0] if len(bb) == 1 else None)
+        slot_id, name_id = (ids[0], ids[1]) if ks[0] == "table" else (ids[1], ids[0])
+        assigns = [x for x in H.walk(cl["body"]) if x.get("k") == "assign"]
+        if len(assigns) != 1:
+            continue
+        a = assigns[0]
+        l = H.local_of(H.peel(a["l"], derefs=True))
+        r = H.peel(a["r"], tries=True)
+        if l and l[0] == slot_id and r.get("k") == "mcall" and r["name"] == "get_namespace" and len(r["args"]) == 1 \
+                and H.local_of(r["args"][0]) and H.local_of(r["args"][0])[0] == name_id \
+                and H.local_of(r["recv"]) and pids and H.local_of(r["recv"])[0] == pids[0] and H.peel(a["r"]).get("k") == "try":
+            return a, n
+    return None
+
+
 def _reorder_fn(q):
     return q.fn("reorder", within="quill::action::reorder")
 
@@ -102,12 +151,31 @@ def r08_2(q, R, spec):
                 ok = covers = False
                 got = None
                 a = fors = None
-                if len(cand) == 1:
+                zipped = _zip_fill(b, table[1])
+                if zipped is not None and not [c_ for c_ in cand if c_[0] is not zipped[0]]:
+                    # `table.iter_mut().zip(namespaces).try_for_each(|(slot, name)| { *slot = self.get_namespace(name)?; Ok(()) })?`:
+                    # the position-wise fill spelled as an iterator chain (both arrays have N elements, zip pairs position i with i)
+                    a, tfe = zipped
+                    fors = [{"iter": tfe["recv"], "body": H.peel(tfe["args"][0])["body"], "sp": tfe.get("sp"), "k": "for", "_node": tfe}]
+                    got = "*slot = get_namespace(self, name) for (slot, name) in table.iter_mut().zip(namespaces)"
+                    ok = covers = True
+                    cand = []
+                    R.inst(rid, "table-fill", True, sp=a["sp"], got=got)
+                    conds = U.cond_terms(nz, fors[0]["body"], a)
+                    R.inst(rid, "table-fill-every-position", conds == [], sp=a["sp"], got=U.show_conds(conds))
+                    order = U.order_index(b["body"])
+                    uses = [n for n in H.walk(b["body"]) if n.get("k") == "path" and n["res"].get("r") == "local" and n["res"].get("id") == table[1]
+                            and not any(x is n for x in H.walk(tfe))]
+                    first_use = min((order[id(u)] for u in uses), default=None)
+                    R.inst(rid, "table-complete-before-use", first_use is not None and order[id(tfe)] < first_use and U.is_tried(b["body"], tfe), sp=a["sp"])
+                    a = None
+                elif len(cand) == 1:
                     a, fors, l, r = cand[0]
                     got = "%s = %s" % (U.show(l), U.show(r))
                     covers = len(fors) == 1 and nz.term(fors[0]["iter"]) in loops_ok
                     ok = l == want_l and r == want_r and covers
-                R.inst(rid, "table-fill", ok, sp=(a or b)["sp"], expect="%s = %s in a loop over all N positions" % (sr["table_elem"], sr["table_value"]),
+                if zipped is None or cand:
+                  R.inst(rid, "table-fill", ok, sp=(a or b)["sp"], expect="%s = %s in a loop over all N positions" % (sr["table_elem"], sr["table_value"]),
                        got=got if got else "%d writes into the table" % len(cand),
                        detail="position i of the new order takes the old namespace called namespaces[i]")
                 if a is not None:
